@@ -119,10 +119,13 @@ def single_change_at_boundary(buf=8192, ks=(1, 2, 3)):
 # URL level
 # ---------------------------------------------------------------------------------
 SCHEMES = ["http", "https", "ws", "wss", "ftp", "file", "x-y.z+1", "mailto", ""]
-USERINFO = ["", "u@", "u:p@", "u:@", ":p@", "u%40x:p%3Ay@", "us%20er:pa%2Fss@", "U:P@", "a+b:c=d@", "é:ü@"]
+# (the last entries: every component begins with continuation-byte escapes and ends in a truncated multi-byte
+# escape, or ends in a dangling '%': whatever a decoder/quoter keeps between two calls shows in the next component)
+USERINFO = ["", "u@", "u:p@", "u:@", ":p@", "u%40x:p%3Ay@", "us%20er:pa%2Fss@", "U:P@", "a+b:c=d@", "é:ü@",
+            "%A9x%C3:%A9y%C3@", "%82%ACu%E2:%ACp%E2%82@", "u%:41p%4@"]
 HOSTS = ["example.com", "h", "127.0.0.1", "[::1]", "[fe80::1%25eth0]", "[2001:db8::ff00:42:8329]",
          "xn--bcher-kva.example", "EXAMPLE.Com", "bücher.example", "a.b.c.", "1.2.3", "[::ffff:1.2.3.4]",
-         "h_x", "a-b.c", "", "[v1.x]", "h%41", "0x7f.1", "[0:0:0:0:0:0:0:1]", "XN--bcher-kva.example", "Xn--Bcher-Kva.EXAMPLE",
+         "h_x", "a-b.c", "", "[v1.x]", "h%41", "0x7f.1", "va.gov", "v1.example.com", "vf.fe80", "１２７.０.０.１", "192.168.1.１", "١٢٧.٠.٠.١", "1.2.3.４", "[0:0:0:0:0:0:0:1]", "XN--bcher-kva.example", "Xn--Bcher-Kva.EXAMPLE",
          "xn--bcher-kva.XN--p1ai", "BÜCHER.example", "ｅxample.com", "a。b", "[::1%25Eth0]", "[FE80::1]",
          # text that still looks escaped after one pass (a second pass must not touch it)
          "[fe80::1%2525]", "[fe80::1%252525eth0]", "[::1%25]", "h%2525"]
@@ -130,10 +133,11 @@ PORTS = ["", "", "", ":80", ":443", ":21", ":8080", ":0", ":65535", ":", ":081",
 BAD_PORTS = [":65536", ":x", ":-1", ": 1", ":+1", ":1_0"]
 PATHS = ["", "/", "/a", "/a/b", "/a/", "//a", "/a//b", "/a%2Fb/c", "/%C3%A9", "/a;p=1", "/a+b", "/a b",
          "/.", "/..", "/a/./b/../c", "/%2E/%2e%2E/x", "/a.b.c", "/.hidden", "/x.tar.gz", "/é/ü.txt", "/a%zz",
-         "/a%", "/%41%2f", "/a:b", "/@", "/a?", "a", "a/b", "../a", "./a", "a:b", "a/../..", "/a/b/c/d.e.f"]
+         "/a%", "/%41%2f", "/a:b", "/@", "/a?", "a", "a/b", "../a", "./a", "a:b", "a/../..", "/a/b/c/d.e.f",
+         "/%A9p%C3/%A9n%C3", "/x%C3", "/%A9", "/n%E2%82", "/a%/41", "/archive.tar.", "/a..", "/.a.b."]
 QUERIES = ["", "?", "?a=1", "?a=1&b=2", "?a=1&a=2", "?a", "?a=", "?=1", "?a=b=c", "?a%26b=c%3Dd", "?a+b=c+d",
-           "?a=%2B", "?x=é", "?a=1;b=2", "?a=1&&b=2", "?a=%FF", "?a=%E2%82", "?k=/?:@", "?a=b#c", "?%zz=1", "?a=1&"]
-FRAGMENTS = ["", "#", "#f", "#f/g?h", "#%23", "#é", "#a b", "#a%zz", "#a#b"]
+           "?a=%2B", "?x=é", "?a=1;b=2", "?a=1&&b=2", "?a=%FF", "?a=%E2%82", "?k=/?:@", "?a=b#c", "?%zz=1", "?a=1&", "?%A9k%C3=%A9v%C3", "?a=%C3", "?%A9=b", "?a=%", "?41=b"]
+FRAGMENTS = ["", "#", "#f", "#f/g?h", "#%23", "#é", "#a b", "#a%zz", "#a#b", "#%A9f%C3", "#%82%ACf%E2", "#f%", "#41"]
 
 
 def structured_urls(rng, n):
